@@ -42,29 +42,27 @@ Theorem C19_get_sound_partial_inmemory :
 Proof. exact mem_get_sound. Qed.
 Print Assumptions C19_get_sound_partial_inmemory.
 
-(* ---- no panics ---- *)
-Definition C19_no_panic_full : Prop :=
+(* ---- no panics (model of the code after /repo 47ce3e3: the LFU eviction loop stops on an empty heap) ----
+   For EVERY persistor, eviction policy, limit (size limits smaller than one entry and key limit 0 included),
+   MaxPartSizeBytes and EVERY history of atomic steps — generic cache operations, readers, streaming Sets, and the
+   part store's PutPart/DeletePart/GetPart with its miss fill (the Set that runs in the fill goroutine) — no step of
+   the model panics.  The only panic of the model is heap.Pop on an empty heap inside TrackSetAndReturnEvictedKeys;
+   the proof shows that the loop ends normally because every iteration shortens the heap by one (heap_pop_length).
+   Not part of this statement: panics of code that is not modelled (os / io errors are returned, not panics). *)
+Theorem C19_no_panic :
   forall (kd : pkind) (pl : policy) (maxpart : nat) (ops : list op), run ops (w_init kd pl maxpart) <> None.
+Proof. intros kd pl mp ops. apply run_total. Qed.
+Print Assumptions C19_no_panic.
 
-(* refuted: LFU with a FixedSizeLimit smaller than one entry evicts until the heap is empty and pops once more *)
-Theorem C19_no_panic_refuted : ~ C19_no_panic_full.
-Proof. intros H. exact (H PMem (LfuSize 4) 64 [OSet B"a" (content 1 5) 5] lfu_panic_size). Qed.
-Print Assumptions C19_no_panic_refuted.
-
-(* the same panic with FixedKeyLimit 0, and inside the part store's fill goroutine (a part that exists in the
-   inner store and is larger than the cache's size limit is read) *)
-Theorem C19_panic_other_witnesses :
-  run [OSet B"a" (content 1 1) 1] (w_init PMem (LfuKeys 0) 64) = None /\
-  run [PInner B"a" (content 1 9); PGet B"a"] (w_init PMem (LfuSize 4) 64) = None.
-Proof. split; [exact lfu_panic_keys | exact lfu_panic_fill]. Qed.
-Print Assumptions C19_panic_other_witnesses.
-
-(* what does hold: the EvictNothing policy never panics, for both persistors and all histories (part store
-   operations included) *)
-Theorem C19_no_panic_partial_evictnothing :
-  forall (kd : pkind) (maxpart : nat) (ops : list op), run ops (w_init kd EvictNothing maxpart) <> None.
-Proof. intros kd mp ops. apply run_none. reflexivity. Qed.
-Print Assumptions C19_no_panic_partial_evictnothing.
+(* regression: the three former panic witnesses now run to completion and serve the stored value *)
+Theorem C19_former_panic_witnesses_pass :
+  run [OSet B"a" (content 1 5) 5; OGet B"a"] (w_init PMem (LfuSize 4) 64) = Some [ROk; RVal (content 1 5)] /\
+  run [OSet B"a" (content 1 1) 1; OSet B"b" (content 2 1) 1; OGet B"a"; OGet B"b"] (w_init PMem (LfuKeys 0) 64)
+    = Some [ROk; ROk; RMiss; RVal (content 2 1)] /\
+  run [PInner B"a" (content 1 9); PGet B"a"; PGet B"a"] (w_init PMem (LfuSize 4) 64)
+    = Some [ROk; RVal (content 1 9); RVal (content 1 9)].
+Proof. exact (conj lfu_oversize_ok (conj lfu_keys0_ok lfu_fill_ok)). Qed.
+Print Assumptions C19_former_panic_witnesses_pass.
 
 (* ---- the property for the cache-backed part store, at full strength ---- *)
 Definition C19_part_sound_full : Prop :=
